@@ -16,6 +16,24 @@ def run(modname, fnname, call_src):
     T.DETAIL.clear()
     ns = dict(vars(mod))
     out = {"fn": fnname, "call": call_src}
+    # CrossHair renders a one-element tuple of strings as ('x') -- re-wrap by annotation
+    try:
+        import ast, inspect, typing
+        fn = ns[fnname]
+        hints = typing.get_type_hints(fn)
+        call = ast.parse(call_src, mode="eval").body
+        names = list(inspect.signature(fn).parameters)
+        fixed = False
+        for i, a in enumerate(call.args):
+            h = hints.get(names[i])
+            if typing.get_origin(h) is tuple and not isinstance(a, ast.Tuple) and isinstance(a, ast.Constant):
+                call.args[i] = ast.Tuple(elts=[a], ctx=ast.Load())
+                fixed = True
+        if fixed:
+            call_src = ast.unparse(ast.fix_missing_locations(ast.Expression(call)))
+            out["call"] = call_src
+    except Exception:
+        pass
     try:
         val = eval(call_src, ns)
         out["returned"] = repr(val)[:500]
